@@ -915,3 +915,123 @@ func isStringType(t types.Type) bool {
 	b, ok := t.Underlying().(*types.Basic)
 	return ok && b.Kind() == types.String
 }
+
+// fieldsBehind: the struct fields a value may be a load of, looking through pointers that are
+// kept in a local table first (for _, p := range []*T{&s.a, &s.b} { use(*p) }): a load of a
+// FieldAddr, a load through a pointer read from a local array/slice literal whose slots hold
+// FieldAddrs, or a phi of those. Returns "owner.field" names; ok is false when some source is
+// not a field.
+func fieldsBehind(v ssa.Value) (fields []string, ok bool) {
+	seen := map[ssa.Value]bool{}
+	ok = true
+	var ptr func(p ssa.Value, d int)
+	ptr = func(p ssa.Value, d int) {
+		if d > 8 || seen[p] {
+			return
+		}
+		seen[p] = true
+		switch x := p.(type) {
+		case *ssa.FieldAddr:
+			if owner, f, _, isF := fieldOf(x); isF {
+				fields = append(fields, owner+"."+f)
+				return
+			}
+			ok = false
+		case *ssa.Phi:
+			for _, e := range x.Edges {
+				ptr(e, d+1)
+			}
+		case *ssa.UnOp:
+			if x.Op != token.MUL {
+				ok = false
+				return
+			}
+			// a pointer loaded from a slot of a local table
+			ia, isIA := x.X.(*ssa.IndexAddr)
+			if !isIA {
+				ok = false
+				return
+			}
+			base := ia.X
+			for k := 0; k < 3; k++ {
+				if sl, isSl := base.(*ssa.Slice); isSl {
+					base = sl.X
+				}
+			}
+			al, isAl := base.(*ssa.Alloc)
+			if !isAl || al.Referrers() == nil {
+				ok = false
+				return
+			}
+			n := 0
+			for _, r := range *al.Referrers() {
+				slot, isSlot := r.(*ssa.IndexAddr)
+				if !isSlot || slot.Referrers() == nil {
+					continue
+				}
+				for _, rr := range *slot.Referrers() {
+					if st, isSt := rr.(*ssa.Store); isSt && st.Addr == ssa.Value(slot) {
+						n++
+						ptr(st.Val, d+1)
+					}
+				}
+			}
+			if n == 0 {
+				ok = false
+			}
+		default:
+			ok = false
+		}
+	}
+	ld, isLd := v.(*ssa.UnOp)
+	if !isLd || ld.Op != token.MUL {
+		if owner, f, _, isF := fieldOf(v); isF {
+			return []string{owner + "." + f}, true
+		}
+		return nil, false
+	}
+	ptr(ld.X, 0)
+	if len(fields) == 0 {
+		ok = false
+	}
+	return fields, ok
+}
+
+// localCounter: an integer computed from constants, loop counters and lengths of local
+// tables only — nothing read from a struct field, a global, a parameter or a call result
+// (the shape of a range loop's own bookkeeping).
+func localCounter(v ssa.Value, d int) bool {
+	return localCounterIn(v, map[ssa.Value]bool{})
+}
+
+func localCounterIn(v ssa.Value, seen map[ssa.Value]bool) bool {
+	if seen[v] {
+		return true // a cycle through the counter's own phi
+	}
+	seen[v] = true
+	switch x := v.(type) {
+	case *ssa.Const:
+		return true
+	case *ssa.Phi:
+		for _, e := range x.Edges {
+			if !localCounterIn(e, seen) {
+				return false
+			}
+		}
+		return true
+	case *ssa.BinOp:
+		return localCounterIn(x.X, seen) && localCounterIn(x.Y, seen)
+	case *ssa.Call:
+		if calleeName(x.Common()) == "builtin:len" {
+			base := x.Common().Args[0]
+			for k := 0; k < 3; k++ {
+				if sl, ok := base.(*ssa.Slice); ok {
+					base = sl.X
+				}
+			}
+			_, isAl := base.(*ssa.Alloc)
+			return isAl
+		}
+	}
+	return false
+}
